@@ -192,6 +192,18 @@ func (r *pdRun) buildMsg(ci int, retransmit []byte) ([]byte, string) {
 		nh := []int{0, 0, 0, 1, 1, 1, 2, 3}[r.rng.Intn(8)]
 		var sub []pkt.Opt6
 		var hd []string
+		if own := keysOf(r.m.Known[client]); len(own) > 0 && r.rng.Intn(25) == 0 {
+			// a renewal that lists what the client holds many times over (60-140 IAPrefix options)
+			n := 60 + r.rng.Intn(81)
+			for h := 0; h < n; h++ {
+				ip, ipn, _ := net.ParseCIDR(own[r.rng.Intn(len(own))])
+				l, _ := ipn.Mask.Size()
+				sub = append(sub, pkt.IAPrefix(3600, 3600, byte(l), ip.To16(), nil))
+			}
+			hd = append(hd, fmt.Sprintf("own x%d", n))
+			r.ctx.Count("prefix.hint.own-many", 1)
+			nh = 0
+		}
 		for h := 0; h < nh; h++ {
 			hs := r.genHint(client)
 			if hs.IP == nil {
@@ -349,7 +361,11 @@ func (prefixEngine) Run(ctx *fw.Ctx, cs any) {
 	r.m = model.NewPrefixModel(pool, c.Alloc)
 	r.s = newSrv6([]handler.Handler6{h}, loIface())
 	for i := 0; i < c.Clients; i++ {
-		r.duids = append(r.duids, genDUID(r.rng, i))
+		d := genDUID(r.rng, i)
+		if i > 0 && r.rng.Intn(3) == 0 {
+			d = siblingDUID(r.rng, r.duids[r.rng.Intn(i)])
+		}
+		r.duids = append(r.duids, d)
 	}
 	var last []byte
 	lastClient := 0
@@ -421,4 +437,37 @@ func (prefixEngine) Run(ctx *fw.Ctx, cs any) {
 			ctx.Sample(p, map[string]any{"pool": c.Pool, "alloc": c.Alloc, "clients": c.Clients, "messages": c.Msgs, "blocks_delegated": held, "last_exchanges": r.trace})
 		}
 	}
+}
+
+// siblingDUID derives a DIFFERENT client identifier that is as close as possible to an existing one:
+// same link-layer address with another (possibly unassigned) hardware type, another LLT time, one
+// more or one fewer byte, another DUID type around the same payload. Distinct identifiers are
+// distinct clients, however similar they print.
+func siblingDUID(rng *rand.Rand, d []byte) []byte {
+	s := append([]byte(nil), d...)
+	typ := 0
+	if len(s) >= 2 {
+		typ = int(s[0])<<8 | int(s[1])
+	}
+	switch {
+	case (typ == 1 || typ == 3) && len(s) >= 4 && rng.Intn(2) == 0: // hardware type
+		hw := []uint16{0, 6, 32, 36, 37, 256, 65535}[rng.Intn(7)]
+		if int(s[2])<<8|int(s[3]) == int(hw) {
+			hw = 38
+		}
+		s[2], s[3] = byte(hw>>8), byte(hw)
+	case typ == 1 && len(s) >= 8: // LLT time
+		s[7] ^= byte(1 + rng.Intn(255))
+	case rng.Intn(3) == 0 && len(s) > 3: // one byte fewer
+		s = s[:len(s)-1]
+	case rng.Intn(2) == 0: // one byte more
+		s = append(s, 0)
+	default: // other DUID type code, same payload
+		if len(s) >= 2 {
+			s[1] ^= byte(1 + rng.Intn(3))
+		} else {
+			s = append(s, 1)
+		}
+	}
+	return s
 }
